@@ -248,6 +248,75 @@ def check_parsers(ctx, ir0, feat, base0):
                             observed=digest_ir(b)[:300]), {"ir": ir_jsonable(ir0), "kind": kind})
 
 
+def sync_level(ctx, ir0, feat, base0, i):
+    """`sync` hands ONE parsed truth to every conversion of the run.  A function file created from a function truth
+    that carries a body must come out the same whether or not class / argparse targets are converted in the same run."""
+    import os
+    import shutil
+    import tempfile
+    from argparse import Namespace
+
+    from doctrans.conformance import ground_truth
+
+    ir = deepcopy(ir0)
+    ir.pop("_internal", None)
+    try:
+        src = emit_kind("function", ir, OPTS["function"])
+    except Exception:
+        return
+    lines = src.rstrip("\n").split("\n")
+    names = [n for n in ir0["params"] if not n.endswith("kwargs")]
+    body = ["    zq_loaded = [{}]".format(", ".join(names[:2])), "    print('zq_loading', zq_loaded)", "    zq_total = len(zq_loaded) * 5"]
+    at = len(lines) - 1 if lines[-1].lstrip().startswith("return") else len(lines)
+    lines[at:at] = body
+    if at == len(lines) - len(body):
+        lines.append("    return zq_total")
+    truth_src = "\n".join(lines) + "\n"
+    try:
+        ast.parse(truth_src)
+    except SyntaxError:
+        return
+    outs = {}
+    variants = {"function_only": (), "with_class": ("class",), "with_class_and_argparse": ("class", "argparse_function")}
+    root = tempfile.mkdtemp(prefix="dtverif-c13-sync-")
+    try:
+        for label, extra in variants.items():
+            d = os.path.join(root, label)
+            os.mkdir(d)
+            truth_fn, new_fn = os.path.join(d, "truth_func.py"), os.path.join(d, "new_func.py")
+            with open(truth_fn, "w") as f:
+                f.write(truth_src)
+            if i % 2:
+                with open(new_fn, "w") as f:
+                    f.write("ZQ_BEFORE = 1\n")  # the file exists but does not hold the function yet
+            ns = Namespace(truth="function", functions=[truth_fn, new_fn], function_names=["f_target"],
+                           classes=[os.path.join(d, "cls.py")] if "class" in extra else None, class_names=["ConfigClass"] if "class" in extra else None,
+                           argparse_functions=[os.path.join(d, "cli.py")] if "argparse_function" in extra else None,
+                           argparse_function_names=["set_cli_args"] if "argparse_function" in extra else None)
+            try:
+                ground_truth(ns, truth_fn)
+                outs[label] = ("ok", open(new_fn).read() if os.path.exists(new_fn) else None)
+            except Exception as e:
+                outs[label] = ("exc", type(e).__name__)
+            ctx.event("sync_runs_sharing_one_truth")
+    finally:
+        shutil.rmtree(root, ignore_errors=True)
+    ref = outs["function_only"]
+    for label in ("with_class", "with_class_and_argparse"):
+        if ref[0] != "ok" or outs[label][0] != "ok":
+            ctx.event("sync_variants_not_comparable")  # a conversion of the run failed (judged by C09 / C20), nothing to compare
+            continue
+        ctx.event("sync_variants_compared")
+        if outs[label] != ref:
+            if outs[label][1] and ref[1]:
+                tag, where = drift_tag(ref[1], outs[label][1])
+            else:
+                tag, where = "outcome:{}->{}".format(ref[0], outs[label][0]), str((ref, outs[label]))[:200]
+            ctx.report(dict(base0, field="interference_in_sync", victim="function", mutators=label, tag=tag, expected=where[:300], observed=""),
+                       {"ir": ir_jsonable(ir0), "feat": feat, "truth_src": truth_src, "variant": label, "sync_level": i})
+            break
+
+
 def digest_ir(ir):
     return digest(ir)
 
@@ -268,6 +337,7 @@ def run(ctx):
         ctx.require("contract:emit." + n, 10)
     ctx.require("contract:parse.function", 5)
     ctx.require("sequences", 50)
+    ctx.require("sync_variants_compared", 6)
     g = IRGen(ctx.rng, knobs(p_return=0.7, argparse_domain=False, p_return_over_params=0.5))
     n_irs = ctx.n(96, 800)
     all3 = list(itertools.product(ALL_KINDS, repeat=3))
@@ -309,6 +379,8 @@ def run(ctx):
             if i % 3 == 0:
                 run_sequences(ctx, ir0, feat, pairs, ALT_OPTS, dict(base0, alt_opts=True), body, call=call, flip=not bool((i // 4) % 2))
             check_parsers(ctx, ir0, feat, base0)
+            if feat["n_params"] > 0 and i % 2 == 0:
+                sync_level(ctx, ir0, feat, base0, i // 2)
     finally:
         undo()
     ctx.note("exhaustive_sequences_per_ir", exhaustive)
@@ -323,7 +395,9 @@ def replay(payload):
     ir0 = ir_from_jsonable(rp["ir"])
     if rp.get("body"):
         attach_body(ir0, rp.get("body_variant", 0))
-    if "seq" in rp:
+    if "sync_level" in rp:
+        sync_level(ctx, ir0, rp["feat"], {"op": OP}, rp["sync_level"])
+    elif "seq" in rp:
         seq = tuple(rp["seq"])
         seqs = ([(a, seq[-1]) for a in set(seq[:-1])] + [seq]) if seq else []
         run_sequences(ctx, ir0, rp["feat"], seqs, ALT_OPTS if rp.get("alt") else OPTS, {"op": OP}, bool(rp.get("body")),
